@@ -81,6 +81,12 @@ pub fn record_chars(title: &str, lang: &Lang) -> Vec<char> {
     tokenize_record(title, lang).chars
 }
 
+/// The title as it is returned when nothing is highlighted: the tokeniser's source text
+/// (accent sequences composed) without its NUL padding.
+pub fn record_plain(title: &str, lang: &Lang) -> String {
+    tokenize_record(title, lang).source.iter().filter(|c| **c != '\0').collect()
+}
+
 /// Gram set of a text, recomputed by the harness from public tokeniser output only:
 /// for every word, its 1- and 2-letter starts (NUL padded) and every window of 3.
 pub fn gram_set(words: &[Vec<char>]) -> std::collections::BTreeSet<[char; 3]> {
